@@ -115,6 +115,9 @@ def check(ctx):
                     ref = float('nan')
                 if not close(ref, y) and not (ref != ref or y != y):
                     C.issue('not-the-documented-formula', 'oracle', rp, got=y, reference=ref)
+                elif ref == ref and y != y:
+                    # the documented expression is defined (finite) at this point but the function returns NaN
+                    C.issue('not-the-documented-formula', 'oracle', rp, got=y, reference=ref)
                 if name in COHERENT and y == y:
                     lb = COHERENT[name][0](len(x))
                     if name == 'csendes' and any(v == 0 for v in x):
@@ -148,7 +151,7 @@ def replay(prop, payload):
         ref = float(REF[name](x))
     except Exception:
         ref = float('nan')
-    bad = not close(ref, y) and not (ref != ref or y != y)
+    bad = (not close(ref, y) and not (ref != ref or y != y)) or (ref == ref and y != y)
     if name in COHERENT and y == y and not (name == 'csendes' and any(v == 0 for v in x)):
         bad = bad or y < COHERENT[name][0](len(x)) - 1e-9
     return bad
